@@ -25,6 +25,7 @@ U.externs = ['ide', 'syntax', 'ecow', 'rowan', 'salsa', 'id_arena', 'indexmap']
 U.repo_build = ['-p', 'ide']
 U.flags = ['--no-trait-conflicts']
 U.desugar_for = True
+U.features = ['allocator_api']   # named by the external type specification of hash_set::IntoIter<K, A>
 U.inline_and_then = True   # R13
 U.inline_mod_uses = '#[allow(unused_imports)] use crate::index::context::*;\n#[allow(unused_imports)] use crate::index::scope::*;\n'
 U.delete_stmt_macros = {'tracing::debug', 'tracing::info', 'tracing::warn', 'tracing::error', 'tracing::trace'}
@@ -87,14 +88,51 @@ for f, k in [('current_record_id', 'Record'), ('current_defset_id', 'Defset'), (
 U.fn(SC, 'Scopes::add_variable', attrs=['external_body'],
      requires=[C('old(self)@.len() > 0', 'C03', name='add_variable needs a current scope (last_mut().expect)')],
      ensures=[C('final(self)@ =~= old(self)@', 'C05')])
-U.fn(SC, 'Scopes::find_local', attrs=['external_body'])
+U.append(SC, '''
+// ---- C05: the lookup order as the property states it: innermost scope first; in a scope variables, then fields (own and inherited),
+// ---- then template arguments; global defs last
+pub uninterp spec fn sp_scope_var(s: &Scope, name: EcoString) -> Option<VariableId>;
+pub open spec fn local_at(sc: &Scope, sm: &SymbolMap, name: EcoString) -> Option<SymbolId> {
+    match sp_scope_var(sc, name) {
+        Some(v) => Some(SymbolId::VariableId(v)),
+        None => match sc.kind {
+            ScopeKind::Record(rid) => match sp_field(&sp_record(sm, rid), sm, name) {
+                Some(f) => Some(SymbolId::RecordFieldId(f)),
+                None => match sp_rec_targ(&sp_record(sm, rid), name) { Some(t) => Some(SymbolId::TemplateArgumentId(t)), None => None },
+            },
+            ScopeKind::Multiclass(mid) => match sp_mc_targ(&sp_multiclass(sm, mid), name) { Some(t) => Some(SymbolId::TemplateArgumentId(t)), None => None },
+            _ => None,
+        },
+    }
+}
+/// the innermost n scopes... i.e. scopes[n-1] first, then n-2, down to the root
+pub open spec fn local_spec(scopes: Seq<Scope>, sm: &SymbolMap, name: EcoString, n: nat) -> Option<SymbolId> decreases n {
+    if n == 0 || n > scopes.len() { None } else { match local_at(&scopes[n - 1], sm, name) { Some(x) => Some(x), None => local_spec(scopes, sm, name, (n - 1) as nat) } }
+}
+pub open spec fn resolve_spec(scopes: Seq<Scope>, sm: &SymbolMap, name: EcoString) -> Option<SymbolId> {
+    match local_spec(scopes, sm, name, scopes.len()) { Some(x) => Some(x), None => match sp_def(sm, name) { Some(d) => Some(SymbolId::RecordId(d)), None => None } }
+}
+impl Scopes { pub closed spec fn all(&self) -> Seq<Scope> { self.scopes@ } }
+''')
+U.fn(SC, 'Scopes::find_local', attrs=['exec_allows_no_decreases_clause'], tags='C05',
+     ensures=[C('ret == local_spec(self.all(), symbol_map, *name, self.all().len())', 'C05', name='lookup walks the scopes innermost first: variables, then fields, then template arguments')],
+     prologue='proof { ax_into_sym(); }',
+     outline=[dict(rx=r'self\.scopes\.iter\(\)\.rev\(\)', name='o_scopes_rev', sig="<'a>(this: &'a Scopes) -> (r: core::iter::Rev<core::slice::Iter<'a, Scope>>)", call='o_scopes_rev(self)', subst=[('self', 'this')],
+                   ensures=['rev_pos(&r) == 0', 'rev_items(&r).len() == this.all().len()', 'forall|i: int| 0 <= i < this.all().len() ==> *(#[trigger] rev_items(&r)[i]) == this.all()[i]'],
+                   why='slice iterator adapter rev()')],
+     loops={0: dict(invariant=['rev_items(&__it0).len() == self.all().len()', 'forall|i: int| 0 <= i < self.all().len() ==> *(#[trigger] rev_items(&__it0)[i]) == self.all()[i]',
+                               'rev_pos(&__it0) <= self.all().len()',
+                               C('local_spec(self.all(), symbol_map, *name, self.all().len()) == local_spec(self.all(), symbol_map, *name, (self.all().len() - rev_pos(&__it0)) as nat)', 'C05',
+                                 name='no inner scope declares the name')],
+                    body_prologue='proof { ax_into_sym(); }',
+                    ensures=['rev_pos(&__it0) >= self.all().len()'])})
 U.fn(SC, 'Scopes::find_variable_in_current_scope', attrs=['external_body'],
      requires=[C('self@.len() > 0', 'C03', name='find_variable_in_current_scope needs a current scope (last().expect)')])
 U.fn(SC, 'Scope::new', ensures=['fk(ret.kind) == fk(kind)'])
-for f in ('record_id', 'defset_id', 'multiclass_id', 'defm_id'):
-    U.fn(SC, 'Scope::' + f)
+for f, k in (('record_id', 'Record'), ('defset_id', 'Defset'), ('multiclass_id', 'Multiclass'), ('defm_id', 'Defm')):
+    U.fn(SC, 'Scope::' + f, ensures=['ret == (match self.kind { ScopeKind::%s(id) => Some(id), _ => None })' % k])
 U.fn(SC, 'Scope::add_variable', attrs=['external_body'])
-U.fn(SC, 'Scope::find_variable', attrs=['external_body'])
+U.fn(SC, 'Scope::find_variable', attrs=['external_body'], ensures=[C('ret == sp_scope_var(self, *name)', 'C05', name='ASSUMED: a scope\'s own variables (HashMap lookup, foreach iterator name)')])
 
 # ----------------------------------------------------------------------------- context.rs
 U.fn(CTX, 'IndexCtx::new', attrs=['external_body'], ensures=['cwf(&ret)', 'frames(&ret) =~= seq![Fk::Root]', 'ret.file_trace@ =~= seq![root_file]',
@@ -110,7 +148,8 @@ U.fn(CTX, 'IndexCtx::push_file',
 U.fn(CTX, 'IndexCtx::pop_file', requires=[C('old(self).file_trace@.len() > 0', 'C03', name='pop_file() on an empty file stack panics')],
      ensures=[C('final(self).file_trace@ =~= old(self).file_trace@.drop_last()', 'C05'), 'final(self).scopes == old(self).scopes',
               'final(self).indexed_files == old(self).indexed_files'])
-U.fn(CTX, 'IndexCtx::resolve_id')
+U.fn(CTX, 'IndexCtx::resolve_id', tags='C05', prologue='proof { ax_into_sym(); }',
+     ensures=[C('ret == resolve_spec(self.scopes.all(), &self.symbol_map, *name)', 'C05', name='a name resolves to the innermost local declaration; global defs are consulted last')])
 U.fn(CTX, 'IndexCtx::resolve_id_in_current_scope', requires=[C('frames(self).len() > 0', 'C03')])
 U.fn(CTX, 'IndexCtx::error', requires=[C('old(self).file_trace@.len() > 0', 'C03', name='error() needs a current file')],
      ensures=['final(self).scopes == old(self).scopes', 'final(self).file_trace == old(self).file_trace', 'final(self).indexed_files == old(self).indexed_files'])
@@ -155,7 +194,20 @@ FRAME = dict(requires=[C('cwf(old(ctx))', 'C03 C05')], ensures=[C('cwf(final(ctx
 U.fn(I, 'index_name_value', **FRAME)
 U.fn(I, 'resolve_class_ref_as_class', attrs=['external_body'], **FRAME)
 U.fn(I, 'resolve_class_ref_as_multiclass', attrs=['external_body'], **FRAME)
-U.fn(I, 'check_template_args', attrs=['external_body'], **FRAME)
+# check_template_args: verified.  Its three iterator-adapter expressions are outlined (R14) into external_body helpers; the
+# enumerate() loop is desugared (R4) over an assumed model of Enumerate<vec::IntoIter<_>> (position / total ghost counters).
+U.fn(I, 'check_template_args', attrs=['exec_allows_no_decreases_clause'], **FRAME,
+     outline=[dict(rx=r'template_args\s*\.iter\(\)\s*\.map\(\|arg\| arg\.name\.clone\(\)\)\s*\.collect\(\)', name='o_template_arg_names', sig='(template_args: &Vec<TemplateArgument>) -> HashSet<EcoString>',
+                   call='o_template_arg_names(&template_args)', why='iterator adapters map/collect'),
+              dict(rx=r'template_args\.iter\(\)\.find\(\|arg\| arg\.name == arg_value_name\)', name='o_find_template_arg', sig="<'a>(template_args: &'a Vec<TemplateArgument>, arg_value_name: &EcoString) -> Option<&'a TemplateArgument>",
+                   call='o_find_template_arg(&template_args, &arg_value_name)', bind='let arg_value_name = arg_value_name.clone(); /* the helper borrows what the site owns */ ', why='iterator adapter find with a closure'),
+              dict(rx=r'template_args\.iter\(\)\.find\(\|arg\| arg\.name == unsolved_arg\)', name='o_find_unsolved_arg', sig="<'a>(template_args: &'a Vec<TemplateArgument>, unsolved_arg: &EcoString) -> Option<&'a TemplateArgument>",
+                   call='o_find_unsolved_arg(&template_args, &unsolved_arg)', bind='let unsolved_arg = unsolved_arg.clone(); /* the helper borrows what the site owns */ ', why='iterator adapter find with a closure'),
+              dict(rx=r'arg_values\.into_iter\(\)\.enumerate\(\)', name='o_enumerate_arg_values', sig='(arg_values: Vec<Option<(Option<EcoString>, Type, TextRange)>>) -> (r: core::iter::Enumerate<std::vec::IntoIter<Option<(Option<EcoString>, Type, TextRange)>>>)',
+                   call='o_enumerate_arg_values(arg_values)', ensures=['enum_pos(&r) == 0', 'enum_total(&r) == arg_values@.len()'], why='Iterator::enumerate is a provided trait method'),
+              ],
+     loops={0: dict(invariant=LOOPINV + ['enum_pos(&__it0) <= enum_total(&__it0)', C('enum_total(&__it0) <= template_args@.len()', 'C03', name='positional arguments are looked up only below the number of declared template arguments')]),
+            1: dict(invariant=LOOPINV)})
 U.fn(I, 'identifier', rename={'identifier': 'ident_'}, **FRAME)   # mod utils
 
 # ----------------------------------------------------------------------------- C03 mechanism 2: no record becomes its own parent
